@@ -8,6 +8,10 @@ CLAIMED = {
         technique="deterministic simulation: seeded search over fit-call orders, declaration orders and re-fit histories of a DependenceFunction DAG with injected optimiser failures; closed-form least-squares reference model",
         text="Seeded exploration of schedules (order of fit calls / declaration, re-fit rounds) and optimiser-failure faults over DAGs of real DependenceFunctions; every end-of-round state is compared with a closed-form (bounded) least-squares reference, local optimality, bounds and constraints. Evidence over the runs explored, not a proof.",
         note="Trusts numpy.linalg.lstsq / scipy lsq_linear as reference solvers and the harness's own evaluation of the user's shape functions; nonlinear shapes are judged on bounds and local optimality only."),
+    "C18": dict(engine="spec", level="fault_enumeration", design="DESIGN.md section 3 / C18",
+        technique="deterministic simulation with fault injection: every malformation class x position x carrier family x dependence structure injected into an otherwise valid staged pipeline (build, construct, fit, evaluate, contour); fault-free twin as reference",
+        text="Complete enumeration of single malformations (class x position x carrier family x conditional_on structure of 1-4 dimensions) plus seeded pairs, each injected into a staged pipeline whose fault-free twin completes; a violation is a stage that returns normally although it computed with the malformed item.",
+        note="Trusts the harness's table of the latest admissible stage per malformation class (description faults: the model constructor; others: first stage that computes with the item); any exception type counts as rejection."),
 }
 
 NA = {
